@@ -67,6 +67,9 @@ def purity_history(seed, n):
     rng = random.Random(seed * 977 + 5)
     before = registry_snapshot()
     pool16 = [(rng.getrandbits(16), rng.choice([0, 0, 1, 4, 5, 6, 8, 2, 200])) for _ in range(n // 8)]
+    # ENABLE DEVICE TYPE frames and application-extended opcodes, which the former must not influence
+    pool16 += [(0xC100 | k, 0) for k in (1, 4, 5, 6, 8, 8, 6)] + [((rng.randrange(64) << 9) | 0x100 | rng.randrange(224, 256), 0)
+                                                                   for _ in range(24)]
     pool24 = [(rng.getrandbits(24), rng.choice([0, 0, -1, 2, 4, 5, 9])) for _ in range(n // 8)]
     ev16, ev24, kept = [], [], []
     # event frames under the ambiguous / unknown decodings take part as well (their results must stay what they were)
@@ -78,7 +81,9 @@ def purity_history(seed, n):
         r = rng.random()
         if r < 0.4:
             f, dt = rng.choice(pool16)
-            ev16.append({"key": dt * 65536 + f, "cell": cmdrec.dec_cell(16, f, dt), "pos": pos})
+            # (with device type 0 the keyword is left out half the time: the default is 0, whatever was decoded before --
+            # also when that was an ENABLE DEVICE TYPE frame)
+            ev16.append({"key": dt * 65536 + f, "cell": cmdrec.dec_cell(16, f, dt, bare=(dt == 0 and pos % 2 == 0)), "pos": pos})
             if pos % 3 == 0:
                 cmdrec.scribble(16, f, dt)
         elif r < 0.8:
@@ -123,7 +128,7 @@ def build(tier, seed):
         dts = list(range(256))
         cmdrec.pvals("ob", range(256))
         his = list(range(65536))
-        maprows = [(hi, mid) for mid in [-1] + list(range(1, 33))
+        maprows = [(hi, mid) for mid in [-1] + list(range(1, 33)) + [33, 97, 255, 256]
                    for hi in range(65536) if not (hi & 0x8000) and not (hi & 0x100) and (hi & 0x80)]
     else:
         dts = [0, 1, 4, 5, 6, 8, 2, 3, 7, 9, 128, 254, 255]
@@ -132,7 +137,7 @@ def build(tier, seed):
             ops.add(rng.randrange(256))
         cmdrec.pvals("ob", sorted(ops))
         his = list(range(65536))
-        maprows = [(hi, mid) for mid in (-1, 2, 4, 5, 8)
+        maprows = [(hi, mid) for mid in (-1, 2, 4, 5, 8, 33, 256)
                    for hi in range(65536)
                    if not (hi & 0x8000) and not (hi & 0x100) and (hi & 0x80) and ((hi >> 9) & 63) in (0, 21, 63)]
     # every event header (bit 23 = 0, bit 16 = 0: all five schemes) under two sparse heterogeneous maps
